@@ -189,7 +189,7 @@ pub fn cells() -> Vec<Cell> {
                 (MOp::SetTemp, 0),
                 (MOp::PutTemp, 0),
             ];
-            for pop in [0u8, 3u8, 4u8] {
+            for pop in [0u8, 3u8, 4u8, 5u8] {
                 ops.push((MOp::Ensure, pop));
                 for a in [crate::ops::Act::Accept, crate::ops::Act::Promote, crate::ops::Act::Replace] {
                     ops.push((MOp::Gou(a), pop));
@@ -278,6 +278,57 @@ fn record(cell: &Cell, rep: &mut Report) {
         }
     }
     unreadable_first_copy_cases(cell, &run, rep);
+    unstampable_level_cases(cell, &run, rep);
+}
+
+/// Every attempt to stamp a file of a read-only level is refused (EPERM: files owned by someone else; EROFS: a
+/// read-only mount): marking a hit as used is best effort there, and the stack resolves exactly as otherwise.
+fn unstampable_level_cases(cell: &Cell, run: &CellRun, rep: &mut Report) {
+    let m = model(cell);
+    let w = if cell.has_writer() { 1 } else { 0 };
+    let lookup = matches!(cell.op, MOp::Get | MOp::Ensure | MOp::Gou(_)) && cell.pop == 0 && cell.checker == 0;
+    if !lookup || !matches!(m.first, Some(f) if f >= w) {
+        return;
+    }
+    let _ = run;
+    for errno in [libc::EPERM, libc::EROFS] {
+        let ctl = std::sync::Arc::new(RefuseSuffix { errno, hits: std::sync::atomic::AtomicU64::new(0) });
+        CONTROLLER.with(|c| *c.borrow_mut() = Some(ctl.clone() as std::sync::Arc<dyn crate::shim::Controller>));
+        let r2 = run_cell(cell);
+        CONTROLLER.with(|c| *c.borrow_mut() = None);
+        rep.evaluations += 1;
+        rep.states += 1;
+        rep.traces += 1;
+        rep.transitions += r2.trace.len() as u64;
+        rep.count("unstampable_level_cases", 1);
+        let mut seen = std::collections::BTreeSet::new();
+        for (sig, msg) in check(&r2) {
+            if seen.insert(sig.clone()) {
+                rep.violation(
+                    format!("stack:{}", sig),
+                    format!("{} [timestamps of the read-only levels cannot be set: errno {}]: {}", cell.to_json(), errno, msg),
+                    serde_json::json!({"cell": cell.to_json(), "unstampable": errno}),
+                );
+            }
+        }
+    }
+}
+
+/// (read-only levels live in directories named r0, r1, ... under the case's scratch root)
+struct RefuseSuffix {
+    errno: i32,
+    hits: std::sync::atomic::AtomicU64,
+}
+
+impl crate::shim::Controller for RefuseSuffix {
+    fn before(&self, ev: &crate::shim::Ev) -> crate::shim::Action {
+        let in_ro = ev.path.as_ref().map(|p| p.contains("/r0/") || p.contains("/r1/") || p.contains("/r2/")).unwrap_or(false);
+        if ev.kind == Kind::Utimens && in_ro {
+            self.hits.fetch_add(1, std::sync::atomic::Ordering::SeqCst);
+            return crate::shim::Action::Fail(self.errno);
+        }
+        crate::shim::Action::Proceed
+    }
 }
 
 /// Lookup order under a failure: when the first level holding the key cannot be read (EACCES, EIO,
